@@ -29,7 +29,7 @@ func enumStrings(alpha []byte, maxLen int, f func([]byte)) {
 	rec(0)
 }
 
-var wsChoices = []string{"", "", "", " ", "\n", "\t", "\r\n", "  ", " \n "}
+var wsChoices = []string{"", "", "", " ", "\n", "\t", "\r\n", "  ", " \n ", "\n\n", "\n\n  ", "\n \n", "\r\n\r\n\t", "\n\n\n"}
 
 func genWs(r *Rng) string { return r.Pick(wsChoices) }
 
